@@ -52,6 +52,16 @@
 (* indirect, and both paint the same form /Fm1 - so both pages list F1 F2  *)
 (* F3 and show the same codes.  calls[s].ca says whether the /Contents     *)
 (* array in the document's object cache is still what the file says.       *)
+(* dA's /Font dictionaries MIX indirect and direct entries: page 1 lists    *)
+(* /F1 5 0 R, then /F4 << a direct font dictionary >>, then /F2; page 2    *)
+(* lists the direct /F4 first.  A direct font has no object number and is  *)
+(* never cached (key 0 in the font map only).  /F4 differs from /F1 in its *)
+(* widths.                                                                 *)
+(* dC's /F1 is a Type 1 font WITHOUT /Encoding whose embedded font program *)
+(* says "/Encoding StandardEncoding def" and then "dup 1 /Delta put": its  *)
+(* table is a private copy of the shared StandardEncoding table with that  *)
+(* entry changed (page 2 of dB, the default font, relies on the shared     *)
+(* StandardEncoding table).                                                *)
 (* PER PAGE (PDFPageInterpreter.fontmap / xobjmap / csmap = calls[s].fm /  *)
 (* .xo / .cs): re-initialised by AInitResources for EVERY page.            *)
 (*                                                                         *)
@@ -75,7 +85,8 @@
 (*   AGetEncodingShared  AGetEncodingCopyOnWrite  ADifferencesAssign       *)
 (*   ADifferencesPop  AParseToUnicode                                      *)
 (*   ACMapCacheFill  ACMapCacheHit  AUMapCacheFill  AUMapCacheHit          *)
-(*   AResolveAllInPlace  AFontCacheFill  AExecuteContents  ARender         *)
+(*   AResolveAllInPlace  ABuiltinEncoding  AFontCacheFill                  *)
+(*   AExecuteContents  ARender                                             *)
 (*   AUseCMapCopy  AAddCode2Cid                                            *)
 (*                                                                         *)
 (* DEVIATION SWITCHES (the dangerous alternatives; Dev = {} is the design):*)
@@ -88,6 +99,12 @@
 (*                     are entered into the document's object cache: a     *)
 (*                     member that a later revision redefines is then      *)
 (*                     shadowed by its stale version                       *)
+(*   BuiltinEncodingAssigned  the Type 1 header parser makes the shared    *)
+(*                     StandardEncoding table ITS table (assignment instead*)
+(*                     of update): the dup/put entries land in the shared  *)
+(*                     table                                               *)
+(*   DirectFontInheritsObjId  a direct font dictionary is looked up under  *)
+(*                     the object number of the indirect entry before it   *)
 (*   ContentsArrayConsumed  the content parser takes the streams OUT of the*)
 (*                     /Contents array (pop) - the array is the cached     *)
 (*                     object itself: later pages sharing it are empty     *)
@@ -130,6 +147,7 @@ CONSTANTS Docs,        \* subset of {"dA", "dB", "dC"}
 
 Codes    == {1, 2}
 FontObjs == {5, 6, 18}
+FontKeys == FontObjs \cup {0}          \* keys of a page's font map: object numbers, 0 = the direct font dictionary /F4
 Type0    == {6, 18}
 EncNames == {"WinAnsi", "Standard"}
 CMapNames == {"H", "V"}
@@ -163,7 +181,7 @@ CIDWidths(d) == [c \in Codes |-> IF d = "dA" THEN (IF c = 1 THEN 500 ELSE 1000)
 CSOf(d)     == IF d = "dA" THEN 3 ELSE IF d = "dB" THEN 1 ELSE 0   \* components of /CS0; 0: the document does not define it
 Encrypted(d) == d = "dC"
 NamesOf(d)  == <<"F1", "F2", "VerifSans", "WinAnsiEncoding", CMapOf(d)>>
-                 \o (IF d = "dB" THEN <<"Differences", "g1234", "Omega">> ELSE <<>>) \o (IF d = "dC" THEN <<"ToUnicode", "Encrypt">> ELSE <<>>)
+                 \o (IF d = "dB" THEN <<"Differences", "g1234", "Omega">> ELSE <<>>) \o (IF d = "dC" THEN <<"ToUnicode", "Encrypt", "FontFile", "Delta">> ELSE <<>>)
                  \o (IF CSOf(d) # 0 THEN <<"CS0", "ICCBased">> ELSE <<>>)
 \* dA: two revisions; revision 1's object stream holds objects 6 and 18, revision 2 redefines 18 directly
 StmMembers == {6, 18}
@@ -175,11 +193,20 @@ ToUni0(d, o) == [c \in Codes |-> IF d = "dA" /\ o = 6 THEN (IF c = 1 THEN "T" EL
 \* page 1 lists F1 F2 and shows codes 1 2 with each; page 2 lists F1 F3 and shows 2 1 with F1, 1 2 with F3
 \* ... except page 2 of dB: its /Resources dictionary is empty, it shows 2 1 with the NAME /F1 only
 HasResources(d, p) == ~(d = "dB" /\ p = 2)
+HasDirect(d) == d = "dA"         \* the /Font dictionaries of dA carry the direct entry /F4 (key 0)
+DirectAfter(d, p) == IF d = "dA" /\ p = 1 THEN 5 ELSE 0    \* object number of the indirect entry listed just before /F4 (0: none)
+Widths4(d) == [c \in Codes |-> IF c = 1 THEN 900 ELSE 300]
+HasBuiltin(d) == d = "dC"        \* /F1 has no /Encoding; its font program: StandardEncoding def, dup 1 /Delta put
+Builtin(t) == [t EXCEPT ![1] = "Delta"]
 SharedPages(d) == d = "dC"     \* both pages refer to the same /Contents array, /Resources, /Font dictionary and form
 Shows(d, p) == IF SharedPages(d) THEN << <<5, 1>>, <<5, 2>>, <<6, 1>>, <<6, 2>>, <<18, 1>>, <<18, 2>> >>
+               ELSE IF HasDirect(d) THEN (IF p = 1 THEN << <<5, 1>>, <<5, 2>>, <<6, 1>>, <<6, 2>>, <<0, 1>>, <<0, 2>> >>
+                                          ELSE << <<5, 2>>, <<5, 1>>, <<18, 1>>, <<18, 2>>, <<0, 1>>, <<0, 2>> >>)
                ELSE IF p = 1 THEN << <<5, 1>>, <<5, 2>>, <<6, 1>>, <<6, 2>> >>
                ELSE IF HasResources(d, p) THEN << <<5, 2>>, <<5, 1>>, <<18, 1>>, <<18, 2>> >> ELSE << <<5, 2>>, <<5, 1>> >>
-FontSeq(d, p) == IF SharedPages(d) THEN <<5, 6, 18>> ELSE IF p = 1 THEN <<5, 6>> ELSE IF HasResources(d, p) THEN <<5, 18>> ELSE <<>>
+FontSeq(d, p) == IF SharedPages(d) THEN <<5, 6, 18>>
+                 ELSE IF HasDirect(d) THEN (IF p = 1 THEN <<5, 0, 6>> ELSE <<0, 5, 18>>)
+                 ELSE IF p = 1 THEN <<5, 6>> ELSE IF HasResources(d, p) THEN <<5, 18>> ELSE <<>>
 DefinesForm(d, p) == (d = "dB" /\ p = 1) \/ SharedPages(d)   \* /XObject << /Fm1 .. >> in the page's resources
 UsesForm(d, p)    == d = "dB" \/ SharedPages(d)              \* /Fm1 Do in the page's content
 HasInline(d, p) == p = 2 \/ SharedPages(d)                   \* an inline image (BI .. ID .. EI)
@@ -188,9 +215,12 @@ HasTie(d, p)    == d = "dB" /\ p = 1      \* text boxes at pairwise equal distan
 \* ------------------------------------------------------------------ reference semantics: what a fresh process returns
 UText(tab, cid) == IF cid \in CIDs THEN tab[cid] ELSE "cid?"
 RefGlyph(d, o, c) ==
-  IF o = 5 THEN [text |-> IF ToUni(d)[c] # "" THEN ToUni(d)[c]
-                           ELSE LET t == ApplyDiffs(PristineEnc["WinAnsi"], DiffSeq(d)) IN IF t[c] = "" THEN "cid?" ELSE t[c],
-                 w |-> Widths(d)[c]]
+  IF o = 0 THEN [text |-> PristineEnc["WinAnsi"][c], w |-> Widths4(d)[c]]
+  ELSE IF o = 5
+  THEN [text |-> IF ToUni(d)[c] # "" THEN ToUni(d)[c]
+                 ELSE LET t == IF HasBuiltin(d) THEN Builtin(PristineEnc["Standard"])
+                               ELSE ApplyDiffs(PristineEnc["WinAnsi"], DiffSeq(d)) IN IF t[c] = "" THEN "cid?" ELSE t[c],
+        w |-> Widths(d)[c]]
   ELSE LET cid == PristineCMap(CMapOf(d))[c] IN
        [text |-> IF ToUni0(d, o)[c] # "" THEN ToUni0(d, o)[c]
                  ELSE UText(IF Vertical(CMapOf(d)) THEN PristineUMapV ELSE PristineUMapH, cid),
@@ -221,7 +251,7 @@ EmptyStr == [c \in Codes |-> ""]
 \* cached CMap object the font holds a reference to;  src: ghost - the document whose object it was built from
 NoFont == [kind |-> "", src |-> "", encShared |-> FALSE, encName |-> "", encOwn |-> EmptyStr, touni |-> EmptyStr,
            w |-> EmptyTab, cmap |-> "", vert |-> FALSE, garbled |-> FALSE, ver |-> ""]
-NoFonts == [o \in FontObjs |-> NoFont]
+NoFonts == [o \in FontKeys |-> NoFont]
 \* d9: the cached descendant dictionary - dec = decipher passes applied to it (0: not cached), tu = the ToUnicode entry
 \* it carries (none in the file)
 NoD9 == [dec |-> 0, tu |-> EmptyStr]
@@ -346,17 +376,22 @@ AInitColorSpacesCopy ==
   /\ last' = NoLast /\ UNCHANGED <<cmapc, umapc, interned, heap, shared, running, ncalls, client, sched>>
 
 \* PDFResourceManager.get_font(objid, spec): objid in _cached_fonts
+\* the key a font-dictionary entry is looked up under: its object number; a direct dictionary has none (objid = None is
+\* set anew for EVERY entry).  Dangerous alternative: the object number of the entry before it is still in the variable
+LookupKey(o) == IF o # 0 THEN o
+                ELSE IF "DirectFontInheritsObjId" \in Dev THEN DirectAfter(Me.doc, Me.cur) ELSE 0
 AFontCacheHit ==
   /\ Micro("font") /\ Me.todo # <<>>
-  /\ LET o == Head(Me.todo) IN
-       /\ Cache(running)[o].kind # ""
-       /\ SetMe([Me EXCEPT !.fm[o] = Cache(running)[o], !.todo = Tail(Me.todo)])
+  /\ LET o == Head(Me.todo)  k == LookupKey(o) IN
+       /\ k # 0 /\ Cache(running)[k].kind # ""
+       /\ SetMe([Me EXCEPT !.fm[o] = Cache(running)[k], !.todo = Tail(Me.todo)])
   /\ last' = NoLast /\ UNCHANGED <<base, cmapc, umapc, interned, heap, shared, running, ncalls, client, sched>>
 AFontMiss ==
   /\ Micro("font") /\ Me.todo # <<>>
-  /\ Cache(running)[Head(Me.todo)].kind = ""
-  /\ SetMe([Me EXCEPT !.pc = IF HasObjStm(Me.doc) /\ Head(Me.todo) \in StmMembers THEN "obj" ELSE "spec",
-                      !.bld = [NoFont EXCEPT !.src = Me.doc, !.kind = IF Head(Me.todo) = 5 THEN "simple" ELSE "cid"]])
+  /\ LookupKey(Head(Me.todo)) = 0 \/ Cache(running)[LookupKey(Head(Me.todo))].kind = ""
+  /\ SetMe([Me EXCEPT !.pc = IF Head(Me.todo) = 0 THEN "enc"            \* a direct dictionary: nothing to fetch
+                             ELSE IF HasObjStm(Me.doc) /\ Head(Me.todo) \in StmMembers THEN "obj" ELSE "spec",
+                      !.bld = [NoFont EXCEPT !.src = Me.doc, !.kind = IF Head(Me.todo) \in {0, 5} THEN "simple" ELSE "cid"]])
   /\ last' = NoLast /\ UNCHANGED <<base, cmapc, umapc, interned, heap, shared, running, ncalls, client, sched>>
 
 \* PDFDocument.getobj(objid) in the two-revision document.  objid in _cached_objs: the cached object is returned
@@ -418,13 +453,16 @@ ACopyDescendantSpec ==
   /\ last' = NoLast /\ UNCHANGED <<base, cmapc, umapc, interned, heap, shared, running, ncalls, client, sched>>
 
 \* EncodingDB.get_encoding(name, diff): without Differences the shared table itself is returned ...
+\* (the direct font /F4 names /WinAnsiEncoding; a font without /Encoding - dC's /F1 - gets the StandardEncoding table)
 AGetEncodingShared ==
-  /\ Micro("enc") /\ ~HasDiff(Me.doc)
-  /\ SetMe([Me EXCEPT !.bld.encShared = TRUE, !.bld.encName = "WinAnsi", !.pc = "touni"])
+  /\ Micro("enc") /\ (~HasDiff(Me.doc) \/ Head(Me.todo) = 0)
+  /\ SetMe([Me EXCEPT !.bld.encShared = TRUE,
+                      !.bld.encName = IF HasBuiltin(Me.doc) /\ Head(Me.todo) = 5 THEN "Standard" ELSE "WinAnsi",
+                      !.pc = IF Head(Me.todo) = 0 THEN "widths" ELSE "touni"])
   /\ last' = NoLast /\ UNCHANGED <<base, cmapc, umapc, interned, heap, shared, running, ncalls, client, sched>>
 \* ... with Differences a copy is made FIRST, whatever the array holds; the entries are then applied one by one
 AGetEncodingCopyOnWrite ==
-  /\ Micro("enc") /\ HasDiff(Me.doc)
+  /\ Micro("enc") /\ HasDiff(Me.doc) /\ Head(Me.todo) # 0
   /\ IF Dev \cap {"EncodingNoCopy", "EncodingLazyCopy"} # {}
      THEN SetMe([Me EXCEPT !.bld.encShared = TRUE, !.bld.encName = "WinAnsi", !.pc = "diff", !.dk = 1])
      ELSE SetMe([Me EXCEPT !.bld.encShared = FALSE, !.bld.encName = "WinAnsi", !.bld.encOwn = base.enc["WinAnsi"],
@@ -495,15 +533,29 @@ AUMapCacheHit ==
 \* PDFFont.__init__: self.widths = resolve_all(widths) - in place, on the dictionary the font constructor just built
 AResolveAllInPlace ==
   /\ Micro("widths")
-  /\ SetMe([Me EXCEPT !.bld.w = IF Head(Me.todo) = 5 THEN Widths(Me.doc) ELSE CIDWidths(Me.doc), !.pc = "fill"])
+  /\ SetMe([Me EXCEPT !.bld.w = IF Head(Me.todo) = 5 THEN Widths(Me.doc) ELSE IF Head(Me.todo) = 0 THEN Widths4(Me.doc)
+                                  ELSE CIDWidths(Me.doc),
+                      !.pc = IF HasBuiltin(Me.doc) /\ Head(Me.todo) = 5 THEN "builtin" ELSE "fill"])
   /\ last' = NoLast /\ UNCHANGED <<base, cmapc, umapc, interned, heap, shared, running, ncalls, client, sched>>
+
+\* PDFType1Font: no /Encoding in the font dictionary and a /FontFile: Type1FontHeaderParser reads the clear-text header.
+\* "/Encoding StandardEncoding def": its private table is UPDATED from the shared StandardEncoding table; the dup/put
+\* entries that follow are written into the private table, which becomes the font's cid2unicode
+ABuiltinEncoding ==
+  /\ Micro("builtin")
+  /\ IF "BuiltinEncodingAssigned" \in Dev
+     THEN /\ base' = [base EXCEPT !.enc["Standard"] = Builtin(@)]
+          /\ SetMe([Me EXCEPT !.bld.encShared = TRUE, !.bld.encName = "Standard", !.pc = "fill"])
+     ELSE /\ base' = base
+          /\ SetMe([Me EXCEPT !.bld.encShared = FALSE, !.bld.encOwn = Builtin(base.enc["Standard"]), !.pc = "fill"])
+  /\ last' = NoLast /\ UNCHANGED <<cmapc, umapc, interned, heap, shared, running, ncalls, client, sched>>
 
 \* get_font: if objid and self.caching: self._cached_fonts[objid] = font
 AFontCacheFill ==
   /\ Micro("fill")
   /\ LET o == Head(Me.todo)  f == Me.bld IN
-       /\ shared' = IF Me.caching /\ "SharedManager" \in Dev THEN [shared EXCEPT ![o] = f] ELSE shared
-       /\ SetMe([Me EXCEPT !.fm[o] = f, !.fonts[o] = IF Me.caching /\ "SharedManager" \notin Dev THEN f ELSE @,
+       /\ shared' = IF o # 0 /\ Me.caching /\ "SharedManager" \in Dev THEN [shared EXCEPT ![o] = f] ELSE shared
+       /\ SetMe([Me EXCEPT !.fm[o] = f, !.fonts[o] = IF o # 0 /\ Me.caching /\ "SharedManager" \notin Dev THEN f ELSE @,
                            !.todo = Tail(Me.todo), !.bld = NoFont, !.dec = 0, !.pc = "font"])
   /\ last' = NoLast /\ UNCHANGED <<base, cmapc, umapc, interned, heap, running, ncalls, client, sched>>
 
@@ -577,7 +629,7 @@ Step  == \/ ADocOpen \/ APageStart \/ AInitResources \/ AInitColorSpacesCopy
          \/ AFontCacheHit \/ AFontMiss \/ AObjCacheHit \/ AObjStmParse \/ AObjDirectParse \/ AGetFontSpec \/ AGetObjParsed \/ ADecipherAllInPlace \/ ACopyDescendantSpec
          \/ AGetEncodingShared \/ AGetEncodingCopyOnWrite \/ ADifferencesAssign \/ ADifferencesPop \/ AParseToUnicode
          \/ ACMapCacheFill \/ ACMapCacheHit \/ AUMapCacheFill \/ AUMapCacheHit
-         \/ AResolveAllInPlace \/ AFontCacheFill \/ AExecuteContents \/ ARender
+         \/ AResolveAllInPlace \/ ABuiltinEncoding \/ AFontCacheFill \/ AExecuteContents \/ ARender
          \/ AUseCMapCopy \/ AAddCode2Cid
 Next0 == Sched \/ Step
 Spec == Init /\ [][Next0]_vars
@@ -593,7 +645,7 @@ FunctionalModuloAddress == last.valid => Mask(last.res) = Mask(Fresh(last.doc, l
 FontSound(d, o, f) == f.kind # "" => /\ f.src = d
                                       /\ \A c \in Codes : GlyphText(f, c) = RefGlyph(d, o, c).text /\ f.w[c] = RefGlyph(d, o, c).w
 CacheKeySound == \A s \in 1..MaxLive : calls[s].st # "free" =>
-                    \A o \in FontObjs : FontSound(calls[s].doc, o, Cache(s)[o]) /\ FontSound(calls[s].doc, o, calls[s].fm[o])
+                    \A o \in FontKeys : FontSound(calls[s].doc, o, Cache(s)[o]) /\ FontSound(calls[s].doc, o, calls[s].fm[o])
 \* a loaded CMap / unicode map is what loading it gives
 CMapCacheSound == /\ \A n \in CMapNames : cmapc[n].loaded => cmapc[n].tab = PristineCMap(n)
                   /\ umapc.loaded => umapc.h = PristineUMapH /\ umapc.v = PristineUMapV
